@@ -794,7 +794,12 @@ def note_mod_rules(repo: Repo, rep, P: str):
 
     def _simple(e: ast.expr) -> bool:
         """names, attribute chains, constants and subscripts of these: values that can be written at their use"""
-        return all(isinstance(x, (ast.Name, ast.Attribute, ast.Constant, ast.Subscript, ast.Load)) for x in ast.walk(e))
+        if all(isinstance(x, (ast.Name, ast.Attribute, ast.Constant, ast.Subscript, ast.Load)) for x in ast.walk(e)):
+            return True
+        # a named condition (`beyond_last = not (index < len(modules))`): comparisons / not / and / or over such values and len(…)
+        return all(isinstance(x, (ast.Name, ast.Attribute, ast.Constant, ast.Subscript, ast.Load, ast.Compare, ast.BoolOp, ast.UnaryOp, ast.cmpop,
+                                  ast.boolop, ast.Not)) or (isinstance(x, ast.Call) and norm(x.func) == "len" and len(x.args) == 1 and not x.keywords)
+                   for x in ast.walk(e)) and isinstance(e, (ast.Compare, ast.BoolOp, ast.UnaryOp))
     for path in paths or []:
         if not g.feasible(path):
             continue
